@@ -339,13 +339,16 @@ func (c *MJSectionComponent) Render(w io.StringWriter) error {
 		}
 
 		vmlOpen := `<v:rect style="width:` + strconv.Itoa(msoTableWidth) + `px;" xmlns:v="urn:schemas-microsoft-com:vml" fill="true" stroke="false"><v:fill origin="` + vOriginX + `, ` + vOriginY + `" position="` + vPosX + `, ` + vPosY + `" src="` + htmlEscape(backgroundUrl) + `"` + colorFragment + ` type="` + vmlType + `"` + sizeFragment + aspectFragment + ` /><v:textbox style="mso-fit-shape-to-text:true" inset="0,0,0,0">`
+		if skipSectionMSOTable {
+			// No Outlook table was opened by this section, so the VML wrapper needs
+			// its own conditional comment.
+			vmlOpen = "<!--[if mso | IE]>" + vmlOpen
+		}
 		if _, err := w.WriteString(vmlOpen); err != nil {
 			return err
 		}
-		if !skipSectionMSOTable {
-			if _, err := w.WriteString("<![endif]-->"); err != nil {
-				return err
-			}
+		if _, err := w.WriteString("<![endif]-->"); err != nil {
+			return err
 		}
 	} else if !skipSectionMSOTable {
 		if _, err := w.WriteString("<![endif]-->"); err != nil {
